@@ -25,7 +25,7 @@ RULE = ("(a) redis 2 consumers x 1 message: all C(10,5)=252 orders of the 5+5 ga
 ASSUMPTIONS = ["Redis and RabbitMQ are wire-level fakes; the gate delays a client's command at the server, which is what arbitrary network latency can do",
                "redis priority polling order pinned (priorities_distribution 1/0/0) in the exhaustive enumeration so that a take is exactly five commands"]
 EVAL_COUNTER = "scenarios_judged"
-REQUIRED = ["scenarios_judged", "exhaustive_orders", "gated_random_runs", "mem_offset_runs", "multi_worker_runs", "deliveries_seen", "relay_runs", "relay_returns", "relay_finish_while_other_holds", "relay_handover_patterns", "maintenance_while_held", "finish_while_take_in_flight"]
+REQUIRED = ["scenarios_judged", "exhaustive_orders", "gated_random_runs", "mem_offset_runs", "multi_worker_runs", "deliveries_seen", "relay_runs", "relay_returns", "relay_finish_while_other_holds", "relay_handover_patterns", "maintenance_while_held", "finish_while_take_in_flight", "stops_while_other_worker_runs", "handover_windows_seen"]
 CASE_TIMEOUT = 150
 
 
@@ -53,6 +53,11 @@ def gen_cases(tier, seed):
     for kind in ("mem", "redis", "rabbit"):
         for i in range({"quick": 4, "thorough": 40}[tier]):
             cases.append({"type": "workers", "kind": kind, "k": rnd.choice([2, 3]), "n": rnd.choice([3, 8, 20]), "seed": rnd.randrange(10**6), "tl": rnd.choice([1, 3, 1000])})
+        # one of two saturated workers is told to stop (long graceful period: nothing is cancelled) at loop steps placed in and
+        # around its consume loop's pause / slot wait / un-pause hand-over; the other one carries on
+        for i in range({"quick": 2, "thorough": 10}[tier]):
+            cases.append({"type": "workers_stop", "kind": kind, "n": rnd.choice([6, 9]), "seed": rnd.randrange(10**6), "tl": rnd.choice([1, 1, 2]), "d": rnd.choice([0.05, 0.2]),
+                          "points": {"quick": 14, "thorough": 40}[tier]})
     return cases
 
 
@@ -552,6 +557,85 @@ async def maint(loop, case, out, stats, fps):
         rig.close()
 
 
+async def workers_stop(loop, case, inject_step, info):
+    """Two workers (separate connections) on one queue with a backlog of short successful jobs; worker 1 gets a stop request
+    at loop step `inject_step` (None: never) with a graceful period longer than any job. Every job must succeed exactly once."""
+    from repid import Job, Worker
+    from rv.wl import World, fire_stop
+
+    kind = case["kind"]
+    w = World(loop, kind, converter="basic", seed=case["seed"], latency=None if kind == "mem" else 0.001)
+    try:
+        await w.open()
+        c2 = w.conn if kind == "mem" else w.rig.make_connection("w2")
+        if kind != "mem":
+            await c2.connect()
+        r = w.router()
+        # two queues per worker: a message of one queue regularly arrives while the other queue's executions occupy every
+        # slot (each consumer has its own prefetch window), which is when the pause / wait / un-pause hand-over is taken
+        w.scripted_actor(r, "acta", queue="qa")
+        w.scripted_actor(r, "actb", queue="qb")
+        for q in ("qa", "qb"):
+            await w.conn.message_broker.queue_declare(q)
+        for i in range(case["n"]):
+            await Job("acta" if i % 2 == 0 else "actb", queue="qa" if i % 2 == 0 else "qb", id_=f"j{i:03d}", args={"script": {"do": "ok", "d": case["d"] * (1 + (i % 3))}}, use_args_bucketer=False,
+                      store_result=False, _connection=w.conn).enqueue()
+        sig = __import__("signal").SIGUSR1
+        w1 = Worker(routers=[r], tasks_limit=case["tl"], graceful_shutdown_time=10.0, handle_signals=[sig], _connection=w.conn)
+        w2 = Worker(routers=[r], tasks_limit=case["tl"], graceful_shutdown_time=10.0, handle_signals=[], _connection=c2)
+        start_step = loop.steps
+        fired = {}
+
+        def hook(step):
+            if inject_step is not None and step == start_step + inject_step and not fired:
+                fired["t"] = loop.time()
+                fired["ok"] = fire_stop(loop)
+
+        loop.step_hook = hook
+        t1 = loop.create_task(w1.run())
+        await asyncio.sleep(0)
+        t2 = loop.create_task(w2.run())
+        t_end = loop.time() + 30
+
+        def done_ids():
+            return {e["id"] for e in w.log.events if e.get("k") == "call" and e.get("op") == "ack" and e.get("depth") == 0}
+
+        while loop.time() < t_end and len(done_ids()) < case["n"]:
+            await asyncio.sleep(0.05)
+        loop.step_hook = None
+        await asyncio.sleep(0.5)
+        info["fired"] = dict(fired)
+        info["w1_returned_by_itself"] = t1.done()
+        # stop whoever still runs: worker 1's handler if it was not used, then worker 2 by cancelling its consumers gracefully
+        if not t1.done():
+            fire_stop(loop)
+        try:
+            await asyncio.wait_for(asyncio.shield(t1), 15)
+        except BaseException as exc:  # noqa: BLE001
+            info["w1_exc"] = repr(exc)
+            t1.cancel()
+        t2.cancel()
+        try:
+            await t2
+        except BaseException:  # noqa: BLE001
+            pass
+        ev = w.log.events
+        info["steps"] = [(e["step"] - start_step, e["k"], e.get("op")) for e in ev if e.get("step", 0) > start_step and e.get("k") in ("call", "ret") and e.get("op") in ("pause", "unpause", "consume")
+                         and str(e.get("who", "")).startswith("w1")]
+        info["ends"] = collections.Counter(e["id"] for e in ev if e.get("k") == "actor_end")
+        info["starts"] = collections.Counter(e["id"] for e in ev if e.get("k") == "actor_start")
+        info["snapshot"] = w.rig.snapshot()
+        info["double_takes"] = list(w.rig.server.double_takes) if kind == "redis" else []
+        info["unknown"] = w.rig.unknown_commands()
+        if kind != "mem":
+            try:
+                await asyncio.wait_for(c2.disconnect(), 10)
+            except Exception:  # noqa: BLE001
+                pass
+    finally:
+        await w.close()
+
+
 async def workers(loop, case, out, stats, fps):
     from repid import Job, Worker
     from rv.wl import World, fire_stop
@@ -633,6 +717,59 @@ def run_case(case):
                 seen_orders.append({"server_order": [f"{a}:{b}" for a, b in res.value[0]], "received": res.value[1]})
         if seen_orders:
             samples.append(seen_orders[0])
+    elif case["type"] == "workers_stop":
+        kind = case["kind"]
+        base = {}
+        res = vl.run(lambda loop: workers_stop(loop, case, None, base), max_steps=6_000_000, seed=case["seed"])
+        if res.exc is not None or "steps" not in base:
+            return {"fp": None, "viol": [], "stats": dict(stats), "inconclusive": f"baseline run failed: {res.exc!r}"}
+        # injection points: every step inside a pause..un-pause hand-over of worker 1's consume loop (and its neighbours), a
+        # few around its consume returns
+        pts, prim, open_at, un_at = set(), set(), None, None
+        for st, k, op in base["steps"]:
+            if op == "pause" and k == "call":
+                open_at = st
+            if op == "unpause" and k == "call":
+                un_at = st
+            if op == "unpause" and k == "ret":
+                if un_at is not None:
+                    prim.update(range(un_at, st + 2))  # the un-pause round trip itself: the new task exists, the loop has not moved on
+                if open_at is not None:
+                    pts.update(range(max(1, open_at - 1), st + 3))
+                open_at = un_at = None
+            if op == "consume" and k == "ret":
+                pts.update((st, st + 1, st + 2))
+        rndp = random.Random(case["seed"] + 5)
+        prim_l = sorted(prim) if len(prim) <= 2 * case["points"] else sorted(rndp.sample(sorted(prim), 2 * case["points"]))
+        rest = sorted(pts - prim)
+        chosen = sorted(set(prim_l) | set(rest if len(rest) <= case["points"] else rndp.sample(rest, case["points"])))
+        stats["handover_windows_seen"] += sum(1 for st, k, op in base["steps"] if op == "unpause" and k == "call")
+        for runs_i, pt in enumerate([None] + chosen):
+            info = base if pt is None else {}
+            if pt is not None:
+                res = vl.run(lambda loop, pt=pt: workers_stop(loop, case, pt, info), max_steps=6_000_000, seed=case["seed"])
+                if res.exc is not None or "ends" not in info:
+                    stats["inconclusive_runs"] += 1
+                    continue
+                if not info["fired"].get("ok"):
+                    continue
+                stats["stops_while_other_worker_runs"] += 1
+            if info.get("unknown"):
+                stats["unknown_server_commands"] += info["unknown"]
+            stats["scenarios_judged"] += 1
+            stats["deliveries_seen"] += sum(info["starts"].values())
+            fps.add(f"workers_stop/{kind}/{case['tl']}/{case['n']}/{pt}")
+            ctx = "workers/one-stopped" if pt is not None else "workers/undisturbed"
+            for id_, n_ in info["ends"].items():
+                if n_ > 1:
+                    explained = any(id_ in str(name) for (_l, name, _t) in info["double_takes"])
+                    out.append(V("executed_twice", kind, "read-then-remove-race" if explained else ctx, f"stop of worker 1 at step +{pt}: {id_} ran to a successful end {n_} times (started {info['starts'][id_]}x) with two workers on the queue"))
+                    break
+            # (a message the stopped worker leaves marked in flight is C01/C03's finding, not a double delivery: counted only)
+            missing = [f"j{i:03d}" for i in range(case["n"]) if not info["ends"].get(f"j{i:03d}")]
+            stats["jobs_left_unfinished_by_the_stop"] += len(missing)
+            if len(missing) == case["n"]:
+                out.append(V("not_executed", kind, ctx, f"stop of worker 1 at step +{pt}: no job at all completed; state {[info['snapshot'].get(m) for m in missing[:4]]}"))
     else:
         fn = {"gated": gated, "mem": mem_offsets, "workers": workers, "relay": relay, "maint": maint}[case["type"]]
         args = (out, stats, fps, samples) if case["type"] == "gated" else (out, stats, fps)
